@@ -343,49 +343,9 @@ func (s *P2Set) AllOriginal(snap map[string][]byte) bool {
 // listed in RepairedPaths; nothing else changed. It returns a list of
 // (clause, detail) pairs.
 func (s *P2Set) CheckWrites(o *P2Obs) [][2]string {
-	var bad [][2]string
 	orig := map[string][]byte{}
 	for i, p := range s.Paths {
 		orig[p] = s.Data[i]
 	}
-	listed := map[string]bool{}
-	for _, p := range o.RepairedPaths {
-		listed[path.Clean(p)] = true
-	}
-	written := map[string]bool{}
-	for _, op := range o.RepairLog {
-		if op.Kind != "write" {
-			continue
-		}
-		cp := path.Clean(op.Path)
-		want, ok := orig[cp]
-		if !ok {
-			bad = append(bad, [2]string{"repair-wrote-unprotected-path", fmt.Sprintf("Repair wrote %q which is not a protected file", op.Path)})
-			continue
-		}
-		if !bytes.Equal(op.Data, want) {
-			bad = append(bad, [2]string{"repair-wrote-wrong-bytes", fmt.Sprintf("Repair wrote %d bytes to %q that differ from the protected content (%d bytes)", len(op.Data), op.Path, len(want))})
-		}
-		if op.Err == "" {
-			written[cp] = true
-			if !listed[cp] {
-				bad = append(bad, [2]string{"repair-write-not-listed", fmt.Sprintf("Repair wrote %q but did not list it in RepairedPaths %v", op.Path, o.RepairedPaths)})
-			}
-		}
-	}
-	for _, d := range envfs.Diff(o.Before, o.After) {
-		if !written[d] {
-			// a failed (torn) write may change its own target only
-			torn := false
-			for _, op := range o.RepairLog {
-				if op.Kind == "write" && path.Clean(op.Path) == d {
-					torn = true
-				}
-			}
-			if !torn {
-				bad = append(bad, [2]string{"repair-changed-other-file", fmt.Sprintf("%q changed although Repair did not write it", d)})
-			}
-		}
-	}
-	return bad
+	return CheckWritesGeneric(orig, o.RepairLog, o.RepairedPaths, o.Before, o.After)
 }
